@@ -78,3 +78,43 @@ Proof. reflexivity. Qed.
 (* Exec's window test is the Spec's window *)
 Lemma in_windowb_spec e ttl : in_windowb e ttl = true <-> in_window e ttl.
 Proof. unfold in_windowb, in_window. lia. Qed.
+
+(* ---- the concurrent model ---- *)
+From God Require Import C06.ProofsConc.
+From God Require C18.Conc.
+
+(* ExecCtx: the database write comes first, the cache delete second (ModelConc.CA with wfirst = true) *)
+Lemma link_exec_write_first :
+  nth 0 C06_Gen.exec_calls ""%string = "exec"%string /\ nth 2 C06_Gen.exec_calls ""%string = "cc.DelCacheCtx"%string.
+Proof. split; reflexivity. Qed.
+
+(* doTake: the cache read, the query and the cache write all sit inside the function given to barrier.DoEx *)
+Lemma link_take_inside_doex :
+  firstn 15 C06_Gen.take_calls =
+  ["logx.WithContext"; "n.doGetCache"; "return"; "return"; "query"; "n.setCacheWithNotFound"; "logger.Error";
+   "return"; "n.stat.IncrDbFails"; "return"; "cacheVal"; "logger.Error"; "jsonx.Marshal"; "return"; "n.barrier.DoEx"]%string.
+Proof. reflexivity. Qed.
+
+(* the state Exec compares with the observations is reached by a schedule, so the theorems apply to it *)
+Lemma exec_conc_final_one_query c t u :
+  CA.querying (pc_of (conc_final c) t) = true -> CA.querying (pc_of (conc_final c) u) = true ->
+  key_of (conc_final c) t = key_of (conc_final c) u -> t = u.
+Proof.
+  intros Ht Hu Hk.
+  assert (HF : FL (conc_final c)).
+  { unfold conc_final. apply (C18.Conc.replay_inv CA.step CA.busy FL); [intros; eapply FL_step; eauto | apply FL_init]. }
+  destruct HF as [_ B].
+  assert (L : forall p, CA.querying p = true -> exists f, CA.leader_of p = Some f) by (intros p; destruct p; simpl; try discriminate; eauto).
+  destruct (L _ Ht) as [f Hf]. destruct (L _ Hu) as [g Hg]. eapply B; eauto.
+Qed.
+
+Lemma exec_conc_final_coherent c k :
+  CA.raced (conc_final c) = false -> (forall u, CA.wpending (pc_of (conc_final c) u) = true -> key_of (conc_final c) u <> k) ->
+  CA.cache (conc_final c) k = None \/ CA.cache (conc_final c) k = Some (CA.db (conc_final c) k).
+Proof.
+  intros Hr Hw.
+  assert (HC : CO (conc_final c)).
+  { unfold conc_final. apply (C18.Conc.replay_inv CA.step CA.busy CO); [intros; eapply CO_step; eauto | apply CO_init]. }
+  destruct HC as (_ & _ & C). destruct (CA.cache (conc_final c) k) as [x|] eqn:E; [|auto]. right.
+  destruct (C k x E) as [->|[?|(u & Pu & Ku)]]; [reflexivity | congruence | exfalso; eapply Hw; eauto].
+Qed.
